@@ -113,6 +113,11 @@ def run(ctx, rep):
                                       site='%s/plain-word-store' % s.fn.name, witness={'entry': r.entry, 'stack': r.ctx(), 'typestate': [r.hold, r.spin]}))
                 continue
         rep.instance('C01.R2', sample)
+        if getattr(r, 'mixed', False):
+            rep.oblig('C01.R2', False)
+            rep.violate(Violation('C01.R2', s.where(),
+                'this CAS expects the value of one load of the mutex word but installs a value computed from a different (earlier) load: it succeeds whenever the word equals the fresh value and then overwrites every change made between the two loads (reader shares taken or dropped, a writer bit, queue bits) [entry %s, via %s]' % (r.entry, r.ctx()),
+                site='%s/cas-stale-new-value' % s.fn.name, witness={'entry': r.entry, 'stack': r.ctx()}))
         bad = None
         for (e, n) in (r.pairs or ()):
             msg = check_pair(K, muc, r, e, n)
